@@ -519,7 +519,7 @@ def qle (tbl : Table α) (a b : Quantity α) : Bool :=
   | .error _ => false
 
 /-- `assert_eq(a, b, eps)` -/
-def assertEq3 (tbl : Table α) (a b eps : Quantity α) : AssertRes :=
+def assertEq3Core (tbl : Table α) (a b eps : Quantity α) : AssertRes :=
   match convertTo tbl a eps.unit with
   | .error _ => .qerr
   | .ok ac =>
@@ -529,6 +529,19 @@ def assertEq3 (tbl : Table α) (a b eps : Quantity α) : AssertRes :=
       match qsub tbl ac bc with
       | .error _ => .qerr
       | .ok d => if qle tbl ⟨NumOps.abs d.value, d.unit, true⟩ eps then .ok else .failed
+
+/-- the tolerance as `assert_eq` uses it (numbat 0551bf6): a zero written without a unit (the literal `0` has every
+dimension) is first brought into the unit of one of the operands — the left one unless that is a zero too -/
+def epsNorm (tbl : Table α) (a b eps : Quantity α) : Quantity α :=
+  if eps.isZero && eps.unit.isEmpty then
+    match convertTo tbl eps (if a.isZero then b.unit else a.unit) with
+    | .ok e => e
+    | .error _ => eps
+  else eps
+
+/-- `assert_eq(a, b, eps)` -/
+def assertEq3 (tbl : Table α) (a b eps : Quantity α) : AssertRes :=
+  assertEq3Core tbl a b (epsNorm tbl a b eps)
 
 /-- a value as the front ends display it: the quantity plus the conversion target of `with_conversion_target`
 (`6 hours -> 45 min` is displayed as `8 × 45 min`) -/
